@@ -12,6 +12,7 @@ def check(ctx):
     run = ctx.run
     # 1. one stream per descriptor, same order
     framework.r4_pairing(ctx)
+    stream.pk_writers(ctx)
     stream.r6_consumption(ctx)
     stream.r6_count_agreement(ctx)
     stream.r26_append_order(ctx)
